@@ -552,7 +552,7 @@ def _p5(ctx, R):
 
 @register("C15",
           "Static analysis of the three readers and their tokenizers: P1 (exception-aware CFG dataflow) every switch of the process-wide naming "
-          "policy is undone on every exit of the function, exceptional exits included, and the value restored was read before the switch; P2 "
+          "policy is undone on every exit of the function, exceptional exits included, and the value restored was read before the switch (written as try/finally, or as a with block whose context manager saves, sets and restores); P2 "
           "(interprocedural must-consume / consumes-when-true summaries) every token-driven loop consumes a token or exits on every path back "
           "to its head, so no input can make a reader spin; P3 every resolution of a textual reference in the EDIF reader is followed by a "
           "not-found check before the result is used (None handled by rejection, for/break searches have a rejecting else) and a container that was resolved and checked is then actually used (the name it qualifies is not looked up in a wider scope); P5 every except "
